@@ -59,6 +59,18 @@ CHECKS.update({
    "tokio broadcast trusted as atomic steps; the v2 build is a second harness binary built with ractor/output-port-v2", "DESIGN.md section 5 C16"),
 })
 
+CHECKS.update({
+ "C13": ("vsched", "exhaustive enumeration of bounded event histories on a real Factory x deviation-bounded schedule DFS, per-job fate ledger",
+   "Every history up to depth 4 (quick; 3 on secondary configurations) / 6 (thorough) over dispatch / complete / die (panic, Err, kill, kill right after Finished) / resize / drain / advance on a real factory with gate-controlled real workers, for 7 routing modes x discard settings; schedules of the runs between events are explored with one deviation where deaths race with the factory. Oracle: each job is handled once, or refused once with an applicable reason, or lost with a dying worker (at most one per death); nothing is handled twice, handled and discarded, or missing while workers are healthy.",
+   "task granularity; 2 keys, 2 initial workers (1..3 after resizes), default queue; one recorded known finding (stale Finished after replacement)", "DESIGN.md section 5 C13-C15"),
+ "C14": ("vsched", "exhaustive enumeration of bounded event histories on a real Factory x deviation-bounded schedule DFS, routing monitors",
+   "Same history sweep; monitors: no two workers run the same key at once (key-persistent, sticky), key-persistent keeps submission order per key, every chosen worker index is inside the pool whatever the custom hash returns (const, identity, usize::MAX), round robin spreads the first n jobs over n workers, queuer never leaves a job waiting while a worker is idle (probed at quiescence), one job at a time per worker.",
+   "task granularity; one recorded known finding (stale Finished after replacement)", "DESIGN.md section 5 C13-C15"),
+ "C15": ("vsched", "exhaustive enumeration of bounded event histories on a real Factory (7 discard settings x 7 routing modes) + exhaustive operation-sequence enumeration of the leaky bucket against a token-bucket reference on the virtual clock",
+   "Queue bound after every processed dispatch, each shed job reported once with Loadshed, pool size converges to the last requested size with dead workers replaced, DrainRequests refuses new jobs / finishes accepted ones / stops the factory / runs hooks in order; leaky bucket: all sequences of length 5 (quick) / 7 (thorough) over {admit, check, advance by 0 / interval-1ns / interval / 2.5 intervals} for 256 parameter tuples (refill 0,1,2,MAX; interval 0,1ns,1ms,MAX; max 0,1,3,MAX; initial None,0,1,5).",
+   "task granularity; one recorded known finding (a replaced draining worker is never removed)", "DESIGN.md section 5 C13-C15"),
+})
+
 NOT_YET = {}
 
 def main():
